@@ -4,6 +4,8 @@ import (
 	"context"
 	"errors"
 	"sort"
+
+	"github.com/cloudwego/eino/schema"
 )
 
 // C01: Pregel (any-predecessor) runs follow lock-step superstep semantics and terminate.
@@ -400,3 +402,99 @@ func VerifC01ChainBranchReuse() {
 		vassert(vMapEq(out, want), "a chain is the composition of its own stages also when a branch value is shared with another chain")
 	}
 }
+
+// multi-choice branches (value and stream conditions): a -> {b, c, d} where the condition returns a map that names
+// each target with true, names it with false, or leaves it out; exactly the targets named with true receive the value
+// and run, in any-predecessor and all-predecessor mode, Invoke and Stream
+func c01MultiChoice(dag bool) {
+	ctx := context.Background()
+	vcfg("fifo", 1)
+	vcfg("selectfirst", 1)
+	vcfgMapOrderIn("NewGraphMultiBranch")
+	targets := []string{"b", "c", "d"}
+	sel := map[string]int{}
+	nTrue := 0
+	for _, t := range targets {
+		sel[t] = vchoose("sel_"+t, 3) // 0 left out, 1 true, 2 false
+		if sel[t] == 1 {
+			nTrue++
+		}
+	}
+	counts := map[string]int{}
+	x := vsymInt("x")
+	node := func(key string) *Lambda {
+		return InvokableLambda(func(ctx context.Context, in map[string]any) (map[string]any, error) {
+			vMu.Lock()
+			counts[key]++
+			vMu.Unlock()
+			return map[string]any{key: vsymUF("f_"+key, vFold(in))}, nil
+		})
+	}
+	g := NewGraph[map[string]any, map[string]any]()
+	_ = g.AddLambdaNode("a", node("a"))
+	_ = g.AddEdge(START, "a")
+	ends := map[string]bool{}
+	for _, t := range targets {
+		_ = g.AddLambdaNode(t, node(t))
+		_ = g.AddEdge(t, END)
+		ends[t] = true
+	}
+	answer := func() map[string]bool {
+		m := map[string]bool{}
+		for _, t := range targets {
+			switch sel[t] {
+			case 1:
+				m[t] = true
+			case 2:
+				m[t] = false
+			}
+		}
+		return m
+	}
+	if vchoose("streamCond", 2) == 1 {
+		_ = g.AddBranch("a", NewStreamGraphMultiBranch(func(ctx context.Context, in *schema.StreamReader[map[string]any]) (map[string]bool, error) {
+			in.Close()
+			return answer(), nil
+		}, ends))
+	} else {
+		_ = g.AddBranch("a", NewGraphMultiBranch(func(ctx context.Context, in map[string]any) (map[string]bool, error) {
+			return answer(), nil
+		}, ends))
+	}
+	var opts []GraphCompileOption
+	if dag {
+		opts = append(opts, WithNodeTriggerMode(AllPredecessor))
+	}
+	r, err := g.Compile(ctx, opts...)
+	vassert(err == nil, "graph with a multi-choice branch compiles")
+	in := map[string]any{"in": x}
+	var out map[string]any
+	var rerr error
+	if vchoose("stream", 2) == 1 {
+		sr, e := r.Stream(ctx, in)
+		rerr = e
+		if e == nil {
+			out, rerr = vDrainMap(sr)
+		}
+	} else {
+		out, rerr = r.Invoke(ctx, in)
+	}
+	if nTrue == 0 {
+		vassert(rerr != nil, "a multi-choice branch that selects nothing leaves END without a value: the run fails")
+		return
+	}
+	vassert(rerr == nil, "run succeeds")
+	av := map[string]any{"a": vsymUF("f_a", vFold(in))}
+	want := map[string]any{}
+	for _, t := range targets {
+		if sel[t] == 1 {
+			want[t] = vsymUF("f_"+t, vFold(av))
+			vassert(counts[t] == 1, "a target the condition names with true runs exactly once: "+t)
+		} else {
+			vassert(counts[t] == 0, "a target the condition leaves out or names with false does not run: "+t)
+		}
+	}
+	vassert(vMapEq(out, want), "END receives the merge of exactly the selected targets' outputs")
+}
+
+func VerifC01MultiChoice() { c01MultiChoice(false) }
